@@ -8,6 +8,9 @@ SRC=/tmp/seed_${P}_${N}; OUT=/verif/seeded/${P}_${N}; WT=/tmp/vw_${P}_${N}
 export GOFLAGS=-mod=mod GOPROXY=off GOSUMDB=off GOTOOLCHAIN=local
 [ -f $SRC/patch.diff ] || { echo "no patch"; exit 2; }
 mkdir -p $OUT; cp -r $SRC/* $OUT/
+# PHASE=wt: only the scratch-worktree part (can run for several seeds in parallel); PHASE=repo: only the /repo part (serial)
+PHASE=${PHASE:-all}
+if [ "$PHASE" != repo ]; then
 git -C /repo worktree add -f $WT HEAD >/dev/null 2>&1 || { echo "worktree failed"; exit 2; }
 cd $WT
 git apply $SRC/patch.diff || { echo "patch does not apply"; git -C /repo worktree remove --force $WT; exit 2; }
@@ -32,6 +35,8 @@ git checkout -- $(cat /tmp/changed_$$.txt)   # (never git stash: the stash ref i
 echo "== demo WITHOUT the change" | tee -a $OUT/verify.log
 ( eval "$DEMOCMD" ) 2>&1 | tail -4 | tee -a $OUT/verify.log
 cd /; git -C /repo worktree remove --force $WT; git -C /repo worktree prune
+fi
+[ "$PHASE" = wt ] && { echo "done (worktree phase)"; exit 0; }
 # run our checks against it
 cd /repo && git diff --quiet || { echo "repo dirty"; exit 2; }
 git apply $SRC/patch.diff
